@@ -92,7 +92,10 @@ CLAIMS = {
          "bad_parameter_refused (unknown or position-disabled parameter), scanMetas_offence_refused (unknown trait / trait not educed at a field or "
          "variant), scanMetas_twice_refused (trait or its synonym twice at one position), collectTop_twice_refused (trait twice on the type, Into "
          "exempt), into_target_twice_refused, insertRank_present_none, union_needs_unsafe_eqLike, union_unsupported_ordLike / _deref; designation "
-         "clauses in Props/C08-C10 (ambiguous_refused, struct_refused_iff, variant_refused_iff, struct_target_refused_iff). Tie: ~1900 "
+         "clauses: deref_no_marker_refused / deref_two_markers_refused, default_no_variant_refused / default_two_variants_refused, "
+         "default_union_no_field_refused / default_union_two_fields_refused (via the loop specifications derefLoop_spec, defaultVariantLoop_spec, "
+         "defaultFieldLoop_spec over the number of markers), and at the behavioural level Props/C08-C10 (ambiguous_refused, struct_refused_iff, "
+         "variant_refused_iff, struct_target_refused_iff). Tie: ~1900 "
          "invalid-by-construction inputs (every clause x shapes x positions x spellings) must be refused by the real macro in-process and by "
          "the model with the same diagnostic class; valid inputs must be accepted by both.",
          COMMON_NOTE + "diagnostic classes are obtained from message texts by a fixed prefix table (vlib/attr.py); the handler-level clauses (unit variant, nameless Debug) are covered by the correspondence, not by a separate theorem.",
